@@ -34,8 +34,33 @@ func contains(xs []string, x string) bool {
 
 func checkC09(sc *Scenario, t *Truth) []Violation {
 	var vs []Violation
-	// (a) transitions
-	for _, rep := range sortedNames(t.Trans) {
+	// (a) transitions: the synchronous hook sees every change that goes through the state
+	// machine's choke point; statuses reported at stable points are merged in, so that a
+	// status written behind the hook's back is judged as a transition too
+	merged := map[string][]Trans{}
+	for rep, trs := range t.Trans {
+		merged[rep] = append([]Trans(nil), trs...)
+	}
+	for _, sn := range t.Snaps {
+		if !sn.Stable {
+			continue
+		}
+		for name, st := range sn.States {
+			trs := merged[name]
+			cur := ""
+			idx := 0
+			for idx < len(trs) && trs[idx].Seq <= sn.Seq {
+				cur = trs[idx].State
+				idx++
+			}
+			if cur != "" && st.Status != cur {
+				ins := Trans{Seq: sn.Seq, T: sn.T, State: st.Status, Task: -2}
+				trs = append(trs[:idx], append([]Trans{ins}, trs[idx:]...)...)
+				merged[name] = trs
+			}
+		}
+	}
+	for _, rep := range sortedNames(merged) {
 		p := sc.specOfReplica(rep)
 		prev := "Pending"
 		if p != nil && p.Disabled {
@@ -48,7 +73,7 @@ func checkC09(sc *Scenario, t *Truth) []Violation {
 		}
 		prevSeq := 0
 		lastStart := 0
-		for _, tr := range t.Trans[rep] {
+		for _, tr := range merged[rep] {
 
 			if prev == "" || tr.State == prev {
 				prev, prevSeq = tr.State, tr.Seq
@@ -59,8 +84,9 @@ func checkC09(sc *Scenario, t *Truth) []Violation {
 			}
 			ok := false
 			if isTerminalStatus(prev) {
-				// terminal states change only on an explicit new start
-				ok = (t.explicitStartCovering(rep, prevSeq-1, tr.Seq) || t.startRequestedBetween(rep, lastStart, tr.Seq)) && (tr.State == "Running" || tr.State == "Launching" || tr.State == "Pending" || tr.State == "Error" || tr.State == "Skipped" || tr.State == "Terminating" || tr.State == "Completed")
+				// terminal states change only on an explicit new start, and a newly started
+				// instance begins Pending (it may be stopped, skipped or fail from there)
+				ok = tr.State == "Pending" && (t.explicitStartCovering(rep, prevSeq-1, tr.Seq) || t.startRequestedBetween(rep, lastStart, tr.Seq))
 			} else {
 				ok = contains(legalNext[prev], tr.State)
 				if !ok && (tr.State == "Running" || tr.State == "Launching" || tr.State == "Pending") && t.startRequestedBetween(rep, lastStart, tr.Seq) {
